@@ -322,6 +322,11 @@ loop:
 		}
 	}
 
+	// A cancelled evaluation must never be returned as a successful (partial) result.
+	if err := ctx.Err(); err != nil {
+		return newErrResult(ret, err)
+	}
+
 	// For range Query we expect always a Matrix value type.
 	if q.t == RangeQuery {
 		resultMatrix := make(promql.Matrix, 0, len(series))
